@@ -1,0 +1,31 @@
+//go:build verif
+
+/*
+Copyright The Helm Authors.
+
+Licensed under the Apache License, Version 2.0 (the "License");
+you may not use this file except in compliance with the License.
+You may obtain a copy of the License at
+
+    http://www.apache.org/licenses/LICENSE-2.0
+
+Unless required by applicable law or agreed to in writing, software
+distributed under the License is distributed on an "AS IS" BASIS,
+WITHOUT WARRANTIES OR CONDITIONS OF ANY KIND, either express or implied.
+See the License for the specific language governing permissions and
+limitations under the License.
+*/
+
+package downloader
+
+import (
+	"helm.sh/helm/v4/internal/resolver"
+	chart "helm.sh/helm/v4/pkg/chart/v2"
+	"helm.sh/helm/v4/pkg/registry"
+)
+
+// VerifResolveOCI exposes internal/resolver.Resolve with a registry client (the OCI
+// branch lists the repository's tags through it) to the verification harness.
+func VerifResolveOCI(chartpath, cachepath string, client *registry.Client, reqs []*chart.Dependency, repoNames map[string]string) (*chart.Lock, error) {
+	return resolver.New(chartpath, cachepath, client).Resolve(reqs, repoNames)
+}
